@@ -124,8 +124,8 @@ ApplyCmd(st, c, it) ==
 (* what is compared after each run / cont: obs is the record the harness read from the real jitter *)
 Window(st, addrs) == [i \in 1..Len(addrs) |-> IF Mapped(st.pages, addrs[i]) THEN RdByte(st, addrs[i]) ELSE -1]
 Differs(st, o, it) ==
-  IF o.crashed # "" THEN "backend-raised:" \o o.crashed
-  ELSE IF st.stop = "fuel" THEN "ok"                                 \* the reference did not finish within the fuel: nothing compared
+  IF st.stop = "fuel" THEN "ok"                                      \* the reference did not finish within the fuel: nothing compared
+  ELSE IF o.crashed # "" THEN "backend-raised:" \o o.crashed
   ELSE IF o.stop # st.stop THEN "stop:" \o o.stop \o "/" \o st.stop
   ELSE IF o.pc # st.pc THEN "pc:" \o ToString(o.pc) \o "/" \o ToString(st.pc)
   ELSE IF <<o.acchi, o.acclo>> # st.acc THEN "acc"
